@@ -15,6 +15,7 @@ structure KInfo where
   homog : Bool
   basic : Bool          -- view_is_basic: channel views re-point the iterator (else: dereference adaptor)
   virt : Bool := false
+  deep : Bool := false  -- the harness continues the op list on colour-converted (dereference-adaptor) views of this kind
   deriving Inhabited
 
 def PLANE : Int := 8192
@@ -27,7 +28,7 @@ def kinfo (k : String) : Option KInfo :=
     some { unit := 1, pix := b, xs0 := b, nch := n, cb := cw.toNat, chan := 0, planar := false,
            chbits := (List.range n).map (fun (i : Nat) => (cw * (i : Int), cw)), homog := false, basic := false }
   match k with
-  | "g8" => inter 1 1 1 | "rgb8" => inter 3 1 3 | "rgba8" => inter 4 1 4 | "rgb16" => inter 6 2 3 | "rgb32f" => inter 12 4 3
+  | "g8" => inter 1 1 1 | "rgb8" => (inter 3 1 3).map (fun i => { i with deep := true }) | "rgba8" => inter 4 1 4 | "rgb16" => inter 6 2 3 | "rgb32f" => inter 12 4 3
   | "s8" => (inter 3 1 3).map (fun i => { i with xs0 := 6 })
   | "p565" => some { unit := 8, pix := 2, xs0 := 2, nch := 3, cb := 5, chan := 0, planar := false,
                       chbits := [(0, 5), (5, 6), (11, 5)], homog := false, basic := false }
@@ -42,6 +43,7 @@ inductive Op where
   | nth (n : Int)
   | kth (k : Int)
   | conv
+  | convOff (o : Int)   -- Z<off>: color_converted_view<bgr8> with the STATEFUL converter `off_cc(off)`
   | convSame      -- color_converted_view<value_type of the view>: returns the view itself
   deriving Inhabited
 
@@ -53,7 +55,7 @@ def parseOp (tok : String) : Option Op :=
   | "R", some [] => some (.geo .rot90cw) | "C", some [] => some (.geo .rot90ccw) | "I", some [] => some (.geo .rot180)
   | "S", some [sx, sy] => some (.geo (.subsample sx sy))
   | "B", some [x0, y0, w, h] => some (.geo (.sub x0 y0 w h))
-  | "N", some [n] => some (.nth n) | "K", some [k] => some (.kth k) | "X", some [] => some .conv | "Y", some [] => some .convSame
+  | "N", some [n] => some (.nth n) | "K", some [k] => some (.kth k) | "X", some [] => some .conv | "Z", some [o] => some (.convOff o) | "Y", some [] => some .convSame
   | _, _ => none
 
 def parseOps (s : String) : Option (List Op) := if s = "-" then some [] else (s.splitOn "/").mapM parseOp
@@ -67,14 +69,16 @@ structure Req where
   ops : List Op
   wx : Int
   wy : Int
+  assign : Bool := false     -- `xa`: every view of the chain is ASSIGNED into an already constructed view
 
 def parseReq (ws : List String) : Option Req :=
   match ws with
-  | ["xf", k, W, H, PAD, OFF, ops, wx, wy] =>
+  | [xfa, k, W, H, PAD, OFF, ops, wx, wy] =>
+    if xfa ≠ "xf" ∧ xfa ≠ "xa" then none else      -- xa: the same chain built by assignment (the views are the same)
     match kinfo k, ints [W, H, PAD, OFF, wx, wy], parseOps ops with
     | some ki, some [W, H, PAD, OFF, wx, wy], some ops =>
       let base := if ki.unit = 1 ∧ !ki.virt then OFF else 0
-      some { ki := ki, W := W, H := H, ops := ops, wx := wx, wy := wy,
+      some { ki := ki, W := W, H := H, ops := ops, wx := wx, wy := wy, assign := xfa = "xa",
              src := { base := base, xs := ki.xs0, ys := W * ki.pix * (ki.xs0 / ki.pix) + PAD, w := W, h := H },
              vsrc := { px := PAD, py := OFF, sx := 1, sy := 1, tr := false, w := W, h := H } }
     | _, _, _ => none
@@ -88,16 +92,23 @@ structure Sel where
   chan : Option Nat := none     -- selected channel (none = whole pixel)
   off : Int := 0                -- memory units added to every address by re-pointed channel views
   adaptor : Bool := false       -- selected through a dereference adaptor (address = pixel address)
-  conv : Bool := false
+  conv : Option Int := none     -- colour-converting dereference adaptor: `some (-1)` = inv_cc (255 - v), `some off` (0..255) = off_cc(off)
+  inner : Bool := false         -- the adaptor was added to a view whose x-iterator already was a step iterator: it sits INSIDE the step iterator
+  cchan : Option Nat := none    -- physical channel of the converted bgr8 pixel selected by an nth / kth_channel dereference adaptor on top
   deriving Inhabited
 
+def Sel.isConv (s : Sel) : Bool := s.conv.isSome
+
 def tagOf (ki : KInfo) (s : Sel) (id : Int) : Int :=
-  match s.chan with
-  | some k => chanVal ki.cb id k
-  | none =>
-    (List.range ki.nch).foldl (fun acc k =>
-      let v := chanVal ki.cb id k
-      acc + (if s.conv then 255 - v else v) * (2 ^ (k * ki.cb) : Int)) 0
+  let cv (k : Nat) : Int :=      -- channel k (by colour) as the derived view shows it
+    let v := chanVal ki.cb id k
+    match s.conv with
+    | none => v
+    | some o => if o < 0 then 255 - v else (v + o) % 256
+  match s.chan, s.cchan with
+  | some k, _ => chanVal ki.cb id k
+  | none, some n => cv (2 - n)       -- physical channel n of a bgr8 pixel is colour 2 - n
+  | none, none => (List.range ki.nch).foldl (fun acc k => acc + cv k * (2 ^ (k * ki.cb) : Int)) 0
 
 /-- bit intervals (start, length) of the arena occupied by the (selected channel of the) pixel at address `a` -/
 def footprint (ki : KInfo) (s : Sel) (a : Int) : List (Int × Int) :=
@@ -127,9 +138,8 @@ def idAt (r : Req) (a : Int) : Int :=
   let sx := rem / r.src.xs
   if rem % r.src.xs = 0 ∧ 0 ≤ sx ∧ sx < r.W ∧ 0 ≤ sy ∧ sy < r.H then sy * r.W + sx + 1 else -1
 
-/-- does a transformation turn the x-iterator into a step iterator?  (flipped_up_down_view and subimage_view keep the type) -/
-def xfSteps : Xform → Bool
-  | .flipUD => false | .sub _ _ _ _ => false | _ => true
+/-- does a transformation turn the x-iterator into a step iterator?  (Model.C02.Xform.stepsX) -/
+def xfSteps (t : Xform) : Bool := t.stepsX
 
 inductive Outcome where
   | view (v : View) (s : Sel)
@@ -143,7 +153,11 @@ def runOps (r : Req) : Outcome :=
     let rec goV (ops : List Op) (v : VView) : Outcome :=
       match ops with
       | [] => .vview v
-      | .geo t :: rest => if xyAtAsserts (facArgs t v.w v.h) v.w v.h then .assert "xy_at" else goV rest (applyVirt t v)
+      | .geo t :: rest =>
+        if xyAtAsserts (facArgs t v.w v.h) v.w v.h then .assert "xy_at" else
+        let nv := applyVirt t v
+        -- xa: assigned into the source view (same type) or into a default-constructed view of the result type (Model.C02.VView.assign)
+        goV rest (if r.assign then VView.assign (if nv.tr = v.tr then v else ⟨0, 0, 0, 0, nv.tr, 0, 0⟩) nv else nv)
       | _ => .bad
     goV r.ops r.vsrc
   else
@@ -152,8 +166,18 @@ def runOps (r : Req) : Outcome :=
       match ops with
       | [] => .view v s
       | .geo tr :: rest =>
-        if xyAtAsserts (facArgs tr v.w v.h) v.w v.h then .assert "xy_at" else go rest (applyMem tr v) s { t with isStep := t.isStep || xfSteps tr }
+        if xyAtAsserts (facArgs tr v.w v.h) v.w v.h then .assert "xy_at" else
+        -- KNOWN FINDING C02-deref-adaptor-step-drops-functor: the stepping locator constructor re-creates the x-iterator with
+        -- make_step_iterator, which (unless the tree has the fix: generated probe deref_step_keeps_functor) converts the stepped base back to the
+        -- dereference adaptor with a DEFAULT-CONSTRUCTED function object: a stateful converter becomes off_cc(0), an nth_channel adaptor selects channel 0
+        -- (an adaptor added to a view that already was a step view sits inside the memory_based_step_iterator, whose step is simply replaced: nothing is lost)
+        let lose := s.isConv ∧ !s.inner ∧ xfSteps tr ∧ deref_step_keeps_functor = 0
+        let s' := if lose then { s with conv := s.conv.map (fun o => if o < 0 then o else 0), cchan := s.cchan.map (fun _ => 0) } else s
+        go rest (applyMem tr v) s' { t with isStep := t.isStep || xfSteps tr }
       | .nth n :: rest =>
+        if s.isConv then      -- a non-basic (dereference-adaptor) view: nth_channel_deref_fn is added on top, the locator is unchanged
+          if !r.ki.deep ∨ s.cchan.isSome ∨ n < 0 ∨ n > 2 then .bad else go rest v { s with cchan := some n.toNat } t
+        else
         if !r.ki.homog then .bad else
         if nth_channel_through_view = 1 ∧ call_ok 0 0 v.w v.h = 0 then .assert "operator" else
         -- the view `make` builds (Model.C02.chanViewMem, from the generated bodies); on a view that already is a
@@ -164,12 +188,15 @@ def runOps (r : Req) : Outcome :=
           | none => { s with chan := some n.toNat, off := s.off + chanAddr n }
         go rest (chanViewMem false t addr n v) s' (chanViewSrc false t)
       | .kth k :: _ =>
+        if s.isConv then (if s.cchan.isSome ∨ k < 0 ∨ k > 2 then .bad else .view v { s with cchan := some k.toNat }) else
         if r.ki.basic then
           if nth_channel_through_view = 1 ∧ call_ok 0 0 v.w v.h = 0 then .assert "operator" else
           .view (chanViewMem true t chanAddr k v) { s with chan := some k.toNat, off := s.off + chanAddr k }
         else .view v { s with chan := some k.toNat, adaptor := true }
-      | .conv :: _ => .view v { s with conv := true }
-      | .convSame :: _ => .view v s
+      | .conv :: rest => if s.isConv ∨ s.chan.isSome then .bad else if r.ki.deep then go rest v { s with conv := some (-1), inner := t.isStep } t else .view v { s with conv := some (-1) }
+      | .convOff o :: rest =>
+        if s.isConv ∨ s.chan.isSome ∨ o < 0 ∨ o > 255 then .bad else if r.ki.deep then go rest v { s with conv := some o, inner := t.isStep } t else .view v { s with conv := some o }
+      | .convSame :: _ => if s.isConv then .bad else .view v s
     go r.ops r.src {} { isStep := r.src.xs ≠ r.ki.pix, planar := r.ki.planar, nch := r.ki.nch, chanSize := r.ki.chan }
 
 def model (line : String) : String :=
@@ -187,7 +214,7 @@ def model (line : String) : String :=
       let pix := (range' 0 (v.h - 1)).flatMap fun y => (range' 0 (v.w - 1)).flatMap fun x =>
         let a := v.addr x y
         [tagOf r.ki s (idAt r (a - s.off)), a]
-      let wr := if v.w > 0 ∧ v.h > 0 ∧ !s.conv then mergeIv (footprint r.ki s (v.addr r.wx r.wy)) else []
+      let wr := if v.w > 0 ∧ v.h > 0 ∧ !s.isConv then mergeIv (footprint r.ki s (v.addr r.wx r.wy)) else []
       join [[v.w, v.h], pix, wr.flatMap (fun (a, n) => [a, n])]
 
 /-! ### judge: the documented behaviour (Spec) evaluated on the implementation's observation -/
@@ -211,11 +238,18 @@ def geoOps (ops : List Op) : List Xform := ops.filterMap (fun o => match o with 
 /-- channel selection demanded by the op list (Spec level) -/
 def selOf (ki : KInfo) (ops : List Op) : Sel :=
   ops.foldl (fun s o =>
+    if s.isConv then      -- on a colour-converted (dereference-adaptor) view a channel view selects a channel of the CONVERTED pixel
+      match o with
+      | .nth n => { s with cchan := some n.toNat }
+      | .kth k => { s with cchan := some k.toNat }
+      | _ => s
+    else
     match o, s.chan with
     | .nth n, none => { s with chan := some n.toNat, off := (if ki.planar then PLANE * n else ki.chan * n) }
     | .kth k, none => if ki.basic then { s with chan := some k.toNat, off := (if ki.planar then PLANE * k else ki.chan * k) }
                       else { s with chan := some k.toNat, adaptor := true }
-    | .conv, _ => { s with conv := true }
+    | .conv, _ => { s with conv := some (-1) }
+    | .convOff o, _ => { s with conv := some o }
     | _, _ => s) {}
 
 def judge (op obs : String) : String :=
@@ -226,6 +260,8 @@ def judge (op obs : String) : String :=
     if !validDims ts (r.W, r.H) then "ok" else        -- outside the factories' preconditions: not judged
     if obs.startsWith "assert:" then fail "aborts (BOOST_ASSERT) on a valid, possibly empty view: " ++ obs else
     match (splitGroups (words obs)).map ints with
+    | [some _, some _, some _, some [x, y, path, t0, tp]] =>
+      fail s!"paths-agree: access path {path} reads {tp} at ({x},{y}) of the derived view where view(x,y) reads {t0}"
     | [some [w, h], some pix, some wr] =>
       let d := dimsAll ts (r.W, r.H)
       if (w, h) ≠ d then fail "dims: documented dimensions" else
@@ -244,7 +280,7 @@ def judge (op obs : String) : String :=
       match bad with
       | some ((x, y), _) => fail s!"map: pixel ({x},{y}) of the derived view is not the documented source pixel"
       | none =>
-        if r.ki.virt ∨ s.conv ∨ w ≤ 0 ∨ h ≤ 0 then (if wr.isEmpty then "ok" else fail "shallow: unexpected write") else
+        if r.ki.virt ∨ s.isConv ∨ w ≤ 0 ∨ h ≤ 0 then (if wr.isEmpty then "ok" else fail "shallow: unexpected write") else
         let p := srcOf r.wx r.wy
         let expect := mergeIv (footprint r.ki s (r.src.addr p.1 p.2 + s.off))
         if pairs wr ≠ expect then fail "shallow: a write through the derived view changes exactly the documented source pixel (channel)" else "ok"
